@@ -2074,6 +2074,7 @@ func CheckMultisigPar(curve elliptic.Curve, h []byte, pkeys [][]byte, sigs [][]b
 				return
 			}
 
+			verifMultisigGate(t.signum, t.pub)
 			result <- verify{
 				signum: t.signum,
 				ok:     t.pub.Verify(sigs[t.signum], h),
